@@ -40,6 +40,10 @@ def generate(prop_module, only=None):
         for kind, st, r in results:
             if kind == 'raise':
                 handled = u.on_raise(I, st, r) if u.on_raise else False
+                if handled:
+                    # a path that is required to be rejected and is: recorded as a (trivially discharged) named obligation
+                    from z3 import BoolVal
+                    I.obls[('reject:path-raises-' + r.kind, tuple(st.prefix), 0)] = Obligation('reject:path-raises-' + r.kind, [], BoolVal(True), tuple(st.prefix), 'reject')
                 if not handled:
                     info['raised'].append(dict(unit=u.name, exc=r.kind, where=(getattr(r.node, 'lineno', None)), prefix=list(st.prefix)))
         for (name, prefix, nth), ob in I.obls.items():
